@@ -490,4 +490,5 @@ func TestC08(t *testing.T) {
 	s := hx.Begin(t, "C08")
 	defer s.End()
 	hx.Run(s, c08Find, s.N(3000, 30000))
+	hx.Each(s, c08Any, true, c08AnyCases)
 }
